@@ -5,6 +5,8 @@ R20.1 guard-before-narrowing (A7): every unchecked usize -> StorageT narrowing (
       the vector's last growth and dominates every normal exit.
 R20.2 state-count guards in pager_stategraph / StateGraph::new / StateTable::new
 R20.3 lexer rule ids come from a checked conversion whose failure panics
+R20.5 every width refusal (diverging exit decided by a comparison with StorageT::max_value()) carries the documented "not big
+      enough" message
 R20.4 the iteration order of hash containers whose keys contain StorageT values (fixed hasher, but the keys hash differently
       per width) reaches no ordered result: otherwise numbering / table contents differ between widths that accept the grammar
 """
@@ -472,7 +474,60 @@ def r204(facts, res):
     res.floor(R, 'iterations over hash containers keyed by StorageT values', n, 8)
 
 
+def r205(facts, res):
+    """"... or the narrower width is refused at construction with the documented 'not big enough' panic": every diverging exit that
+    a comparison with StorageT::max_value() decides (a width refusal) carries a message containing "not big enough" - a bare
+    `assert!` produces "assertion failed: <expression>" instead."""
+    R = 'R20.5'
+    n = 0
+    for b in facts.lib_bodies(['cfgrammar', 'lrtable']):
+        if b.from_expansion:
+            continue
+        mv = b.calls_named('max_value')
+        if not mv:
+            continue
+        seen_sw = set()
+        for bb, t in mv:
+            region = b.reachable([bb], stop=lambda x: b.term(x)['k'] == 'switch')
+            for s in [x for x in region if b.term(x)['k'] == 'switch']:
+                if s in seen_sw:
+                    continue
+                # the switch must be on a comparison fed by the max_value result: its block lies between the call and the switch only
+                seen_sw.add(s)
+                for s2 in b.succs(s):
+                    tail = b.reachable([s2], stop=lambda z: b.term(z)['k'] in ('switch',))
+                    for y in sorted(tail):
+                        ty = b.term(y)
+                        if ty['k'] != 'call' or ty['ret'] is not None:
+                            continue
+                        p = cpath(ty) or ''
+                        if 'panic' not in p and 'assert_failed' not in p and 'unwrap_failed' not in p and 'expect_failed' not in p:
+                            continue
+                        msg = None
+                        for a in ty['args']:
+                            if isinstance(a, dict) and 'const' in a and 'str' in a['const']:
+                                msg = a['const']['str']
+                            la = op_local(a)
+                            if la is not None:
+                                for db, kind, d in b.defs().get(la, []):
+                                    if kind == 'call':
+                                        for a2 in d['args']:
+                                            if isinstance(a2, dict) and 'const' in a2 and 'str' in a2['const']:
+                                                msg = a2['const']['str']
+                        n += 1
+                        key = 'refusal:%s@L%s' % (strip_generics(b.path), n)
+                        if msg is not None and 'not big enough' in msg:
+                            res.ok(R, key, loc_of(b, y), 'refuses with "%s"' % msg[:70])
+                        elif p.endswith('unwrap_failed') or p.endswith('expect_failed') or 'Option' in p:
+                            n -= 1      # an unwrap of a cast, not a width comparison
+                        else:
+                            res.bad(R, key, loc_of(b, y), 'a width refusal (decided by a comparison with StorageT::max_value()) panics with %s instead of the documented '
+                                    '"StorageT is not big enough ..." message' % (('"%s"' % msg[:80]) if msg else 'an undocumented message'), {'function': b.path})
+    res.floor(R, 'width refusals', n, 8)
+
+
 def run(facts, res):
+    r205(facts, res)
     r204(facts, res)
     r201(facts, res)
     r201b(facts, res)
